@@ -805,6 +805,12 @@ class Model(Object):
                     context(partial(setattr, reaction, "_model", self))
                     context(partial(self.reactions.add, reaction))
 
+                # Take the reaction out of the objective first: the solver interface
+                # may keep a cached objective expression that still refers to the
+                # variables after they were deleted.
+                self.solver.objective.set_linear_coefficients(
+                    {forward: 0.0, reverse: 0.0}
+                )
                 self.remove_cons_vars([forward, reverse])
                 self.reactions.remove(reaction)
                 reaction._model = None
